@@ -50,7 +50,9 @@ def run(tier, seed):
     nf = 1500 if thorough else 220
     for i in range(nf):
         met = FAMILY[i % 5] if i % 2 == 0 else rng.choice(["manhattan", "chebyshev", "gower", "euclidean"])
-        scn = S.random_float_scenario(rng, metric=met, n=rng.randrange(4, 13), nq=rng.randrange(3, 8), lattice=False, mode="metric", classes=rng.choice([2, 3, 3, 4]))
+        scn = S.random_float_scenario(rng, metric=met, n=rng.randrange(4, 13), nq=rng.randrange(3, 8), lattice=False, mode=("pre" if i % 3 == 1 else "metric"), classes=rng.choice([2, 3, 3, 4]), copies=False)
+        if not S.materialise_pre(scn):
+            continue
         # no training copies among the queries (they tie with the zero self-distance)
         items.append(scn)
     judged = []
@@ -106,6 +108,7 @@ def run(tier, seed):
     rep.skip("rescaled_twin_rank_matrix_differs", nalt_skipped) if nalt_skipped else None
     out = S.judge(rep, judged, "c11", PIDS, want_m=False)
     rep.cov["tiefree_permuted_traces"] = out.get("tiefree", 0)
+    rep.cov["tiefree_float_traces"] = sum(1 for s_, t_ in judged if s_["mode"] == "metric")
     if out.get("tiefree", 0) < 20:
         raise H.MachineryError("vacuous: only %d traces satisfy C11's tie-free hypothesis" % out.get("tiefree", 0))
     s0, t0 = judged[-1]
